@@ -7,7 +7,7 @@
    for the validator's not-yet-reduced shares); after a Delegate every super delegator node of
    the validator satisfies them. Refuted with residue (finding D10): a node holding 9.9% is
    promoted. super.role_ok is evaluated on the implementation after every step. *)
-From SaoVerif Require Import Base.Prelude Base.Ints Base.Dec Model.Did Model.Types Model.Monad Model.Bank Model.Select Model.Node Model.Storage Model.Sao Model.Hooks Model.App Model.Spec Proofs.HooksFacts.
+From SaoVerif Require Import Base.Prelude Base.Ints Base.Dec Model.Did Model.Types Model.Monad Model.Bank Model.Select Model.Node Model.Storage Model.Sao Model.Hooks Model.App Model.Spec Proofs.HooksFacts Proofs.ValHook.
 From RecordUpdate Require Import RecordUpdate.
 Import RecordSetNotations.
 
@@ -77,3 +77,16 @@ Theorem C20_delegate_promotion_sound_refuted : exists cx s del val key existed a
   nodes s !! addr = Some n /\ n_role n = 0 /\ nodes s' !! addr = Some n' /\ n_role n' = 1 /\ ~ super_ok s' addr n'.
 Proof. first [exact delegate_promotion_sound_refuted | apply delegate_promotion_sound_refuted]. Qed.
 Print Assumptions C20_delegate_promotion_sound_refuted.
+
+(* the validator-change clause - after the hook of a bonded / unbonding / removed validator every delegator node of it that still holds the role satisfies the requirements *)
+Theorem C20_val_hook_supers_sound : forall val s s' k x n',
+  st_event (EvValHook val) s = Ok tt s' ->
+  dels s !! k = Some x -> dl_val x = val ->
+  nodes s' !! dl_del x = Some n' -> n_val n' = val -> n_role n' = 1 -> super_ok s' (dl_del x) n'.
+Proof. first [exact val_hook_supers_sound | apply val_hook_supers_sound]. Qed.
+Print Assumptions C20_val_hook_supers_sound.
+
+Theorem C20_val_hook_frame : forall val s s', st_event (EvValHook val) s = Ok tt s' ->
+  pg s' = 0 /\ pledges s' = pledges s /\ nparams s' = nparams s /\ vals s' = vals s /\ dels s' = dels s.
+Proof. first [exact val_hook_frame | apply val_hook_frame]. Qed.
+Print Assumptions C20_val_hook_frame.
